@@ -7,6 +7,14 @@
 // and the error Execute finally returns.  Committee logic (Ready / StartParams / ValidCoordinators)
 // is the real ECDSA / FROST signing; the Retryable flag is asked from the real signing / keygen /
 // resharing objects.
+//
+// Round 2 additions: (a) "unreach" - from the failure on every Broadcast that addresses one of the
+// named peers (the culprits, typically) returns the transport's *comm.CommunicationError: the
+// replacement attempt must not depend on them; (b) the addressees of every initiate / start broadcast
+// are observed ("who is told"), and "duo" cases run TWO real Coordinators (the session's coordinator
+// and another key holder) over one scripted network, the second one's first attempt receiving what
+// the first one really sent to it; (c) silent-coordinator cases with traffic of other peers (forged
+// initiate / start / fail messages at intervals much shorter than CoordinatorTimeout).
 package main
 
 import (
@@ -14,6 +22,7 @@ import (
 	"errors"
 	"fmt"
 	"os"
+	"sort"
 	"time"
 
 	"github.com/ChainSafe/sygma-relayer/comm"
@@ -68,13 +77,33 @@ type Case struct {
 	// own wait is over by then), TTO from the beginning.  Silent cases always use CTO = 40 ms.
 	CTO int `json:"cto_ms,omitempty"`
 	TTO int `json:"tto_ms,omitempty"`
+	// Peers to which every send fails (Broadcast returns *comm.CommunicationError{Peer}): fail cases
+	// from the moment the first Run starts, silent cases from the beginning.
+	Unreach []int `json:"unreach,omitempty"`
+	// silent: what arrives during the first attempt (At = ms after the wait began): forged traffic of
+	// other peers, initiate messages of the coordinator.  With Msgs1 the case's CTO / TTO are used
+	// from the beginning.
+	Msgs1 []Msg `json:"msgs1,omitempty"`
+	// duo: Self is the session's coordinator, Other a second real relayer (a key holder); Ready1 is the
+	// coordinator's ready stream (Other's entry stands for its genuine answer), Msgs2 is offered to
+	// Other after it was left out; CTO (default 3 s) / TTO are Other's.
+	Other int `json:"other,omitempty"`
 }
 
 const hourMs = 3600000
 
 func (c Case) ctoMs() int {
-	if c.Kind == "silent" {
+	switch c.Kind {
+	case "silent":
+		if c.CTO > 0 && len(c.Msgs1) > 0 {
+			return c.CTO
+		}
 		return 40
+	case "duo":
+		if c.CTO > 0 {
+			return c.CTO
+		}
+		return 3000
 	}
 	if c.CTO > 0 {
 		return c.CTO
@@ -96,16 +125,23 @@ type CallObs struct {
 	Ready    []int `json:"ready"`
 	Excluded []int `json:"excluded"`
 }
+type StartObs struct {
+	Params []int `json:"params"`
+	To     []int `json:"to"` // addressees, sorted by peer number
+}
 type Obs struct {
-	Keys      []uint64  `json:"keys"`
-	Retryable bool      `json:"retryable"`
-	Runs      []RunObs  `json:"runs"`
-	Elected   *[]int    `json:"elected"`
-	Calls2    []CallObs `json:"calls2"`
-	Ready2    []int     `json:"ready2"`
-	Final     int       `json:"final"` // 0 nil, 1 error containing the first attempt's failure, 2 other error
-	FinalText string    `json:"final_text,omitempty"`
-	Note      string    `json:"note,omitempty"`
+	Keys      []uint64   `json:"keys"`
+	Retryable bool       `json:"retryable"`
+	Runs      []RunObs   `json:"runs"`
+	Elected   *[]int     `json:"elected"`
+	Calls2    []CallObs  `json:"calls2"`
+	Ready2    []int      `json:"ready2"`
+	Final     int        `json:"final"` // 0 nil, 1 error containing the first attempt's failure, 2 other error
+	FinalText string     `json:"final_text,omitempty"`
+	Inits2    [][]int    `json:"inits2"` // addressees (sorted) of every initiate broadcast after the failure
+	Starts    []StartObs `json:"starts"` // every start broadcast of the session
+	Note      string     `json:"note,omitempty"`
+	B         *Obs       `json:"b,omitempty"` // duo: the other relayer's observation
 }
 
 const unknownPeer = 9999
@@ -196,6 +232,183 @@ type attempt struct {
 	initN int // initiate broadcasts by this relayer after the failure
 }
 
+// unreachable builds the transport's answer for peers that cannot be reached: the
+// *comm.CommunicationError of the first such addressee (what Libp2pCommunication.Broadcast returns).
+func unreachable(t tbl, is []int) func(fk.ScriptSent) error {
+	if len(is) == 0 {
+		return nil
+	}
+	dead := map[peer.ID]bool{}
+	for _, i := range is {
+		dead[t.ids[i]] = true
+	}
+	return func(s fk.ScriptSent) error {
+		for _, p := range s.To {
+			if dead[p] {
+				return &comm.CommunicationError{Peer: p, Err: errors.New("failed to dial: all dials failed")}
+			}
+		}
+		return nil
+	}
+}
+
+func sortedIdx(t tbl, ps []peer.ID) []int {
+	out := t.indices(ps)
+	sort.Ints(out)
+	return out
+}
+
+// node is one real tss.Coordinator with its scripted surroundings.
+type node struct {
+	self  peer.ID
+	h     *fk.ScriptHost
+	cm    *fk.ScriptComm
+	bully *fk.ScriptComm
+	proc  *fk.ScriptProcess
+	co    *tss.Coordinator
+	retry bool
+	done  chan struct{}
+	ferr  error
+	d     *fk.C07Driver
+}
+
+func newRelayer(c Case, t tbl, self peer.ID, bullyWait time.Duration) *node {
+	holders := t.pick(c.Holders)
+	r := &node{self: self, done: make(chan struct{})}
+	r.h = fk.NewScriptHost(self, t.ids)
+	r.cm = fk.NewScriptComm()
+	r.bully = fk.NewScriptComm()
+	sign, err := fk.C07Signing(c.Sign, repo, c.Sid, r.h, r.cm, holders, c.T)
+	if err != nil {
+		panic(err)
+	}
+	proc := c.Proc
+	if proc == "" {
+		proc = c.Sign
+	}
+	r.retry, err = fk.C07Retryable(proc, repo, c.Sid, r.h, r.cm, holders, c.T)
+	if err != nil {
+		panic(err)
+	}
+	r.proc = fk.NewScriptProcess(c.Sid, fk.C07Inner{ScriptInner: sign, Retry: r.retry})
+	factory := elector.NewCoordinatorElectorFactoryWithComm(r.h, r.bully, relayer.BullyConfig{
+		PingWaitTime: time.Second, PingBackOff: time.Second, PingInterval: time.Second,
+		ElectionWaitTime: 5 * time.Millisecond, BullyWaitTime: bullyWait,
+	})
+	r.co = tss.NewCoordinator(r.h, r.cm, factory)
+	r.co.CoordinatorTimeout = time.Hour
+	r.co.TssTimeout = time.Hour
+	r.co.InitiatePeriod = time.Hour
+	r.d = &fk.C07Driver{Comm: r.cm, Proc: r.proc, Sid: c.Sid, Done: r.done}
+	return r
+}
+
+func (r *node) start(ctx context.Context) {
+	res := make(chan interface{}, 8)
+	go func() {
+		defer close(r.done)
+		r.ferr = r.co.Execute(ctx, []tss.TssProcess{r.proc}, res)
+	}()
+}
+
+// timed delivers the messages not earlier than their times (counted from began) to the start-th
+// initiate / start subscription and the fail-th fail subscription; it gives up when the session or
+// the subscription stop (if given) ended.
+func (r *node) timed(t tbl, msgs []Msg, began time.Time, startOrd, failOrd int, stop <-chan struct{}) {
+	for _, m := range msgs {
+		from := t.ids[m.From]
+		if wait := time.Until(began.Add(time.Duration(m.At) * time.Millisecond)); m.At > 0 && wait > 0 {
+			select {
+			case <-time.After(wait):
+			case <-r.done: // the session ended by itself before the message's time
+			case <-stop:
+			}
+		}
+		select {
+		case <-stop:
+			return
+		default:
+		}
+		switch m.Type {
+		case "initiate":
+			r.d.Deliver(comm.TssInitiateMsg, startOrd, from, []byte{})
+		case "start":
+			payload := []byte("{not a start message")
+			if !m.Bad {
+				payload = fk.C07StartPayload(t.pick(m.Params))
+			}
+			r.d.Deliver(comm.TssStartMsg, startOrd, from, payload)
+		case "fail":
+			r.d.Deliver(comm.TssFailMsg, failOrd, from, []byte{})
+		}
+	}
+}
+
+// collect turns what was recorded into the observation.  calls1 / ready1 / init1: how many Ready
+// calls / ready messages / initiate broadcasts belong to the time before the failure.
+func (r *node) collect(t tbl, o *Obs, calls1, ready1, init1 int, original func(error) bool) {
+	o.Retryable = r.retry
+	for _, run := range r.proc.Runs() {
+		ps, ok := fk.C07DecodeParams(run.Params)
+		a := t.indices(ps)
+		if !ok {
+			a = []int{unknownPeer}
+		}
+		o.Runs = append(o.Runs, RunObs{Coord: run.Coordinator, Params: a})
+	}
+	for _, s := range r.bully.Sent() {
+		if s.Type == comm.CoordinatorSelectMsg && o.Elected == nil {
+			a := t.indices(s.To)
+			o.Elected = &a
+		}
+	}
+	for i, call := range r.proc.ReadyCalls() {
+		if i >= calls1 {
+			o.Calls2 = append(o.Calls2, CallObs{Ready: t.indices(call.Ready), Excluded: t.indices(call.Excluded)})
+		}
+	}
+	k, ki := 0, 0
+	for _, s := range r.cm.Sent() {
+		switch s.Type {
+		case comm.TssReadyMsg:
+			if k >= ready1 {
+				p := unknownPeer
+				if len(s.To) == 1 {
+					p = t.index(s.To[0])
+				}
+				o.Ready2 = append(o.Ready2, p)
+			}
+			k++
+		case comm.TssInitiateMsg:
+			if ki >= init1 {
+				o.Inits2 = append(o.Inits2, sortedIdx(t, s.To))
+			}
+			ki++
+		case comm.TssStartMsg:
+			ps, ok := fk.C07DecodeStart(s.Payload)
+			a := t.indices(ps)
+			if !ok {
+				a = []int{unknownPeer}
+			}
+			o.Starts = append(o.Starts, StartObs{Params: a, To: sortedIdx(t, s.To)})
+		}
+	}
+	switch {
+	case r.ferr == nil:
+		o.Final = 0
+	case original(r.ferr):
+		o.Final = 1
+	default:
+		o.Final = 2
+	}
+	if r.ferr != nil {
+		o.FinalText = fmt.Sprintf("%T: %v", r.ferr, r.ferr)
+		if len(o.FinalText) > 200 {
+			o.FinalText = o.FinalText[:200]
+		}
+	}
+}
+
 func drive(c Case, bullyWait time.Duration) attempt {
 	t := table(c)
 	self := t.ids[c.Self]
@@ -204,24 +417,13 @@ func drive(c Case, bullyWait time.Duration) attempt {
 	for _, p := range t.ids {
 		o.Keys = append(o.Keys, fk.C07SortKey(p, c.Sid))
 	}
-	h := fk.NewScriptHost(self, t.ids)
-	cm := fk.NewScriptComm()
-	bully := fk.NewScriptComm()
-	sign, err := fk.C07Signing(c.Sign, repo, c.Sid, h, cm, holders, c.T)
-	if err != nil {
-		panic(err)
-	}
-	retry, err := fk.C07Retryable(c.Proc, repo, c.Sid, h, cm, holders, c.T)
-	if err != nil {
-		panic(err)
-	}
-	o.Retryable = retry
-	proc := fk.NewScriptProcess(c.Sid, fk.C07Inner{ScriptInner: sign, Retry: retry})
+	r := newRelayer(c, t, self, bullyWait)
+	cm, bully, proc, co, done, d := r.cm, r.bully, r.proc, r.co, r.done, r.d
 	var injected error
 	if c.Kind == "fail" {
 		injected = build(*c.Err, t, self)
 	}
-	var co *tss.Coordinator
+	dead := unreachable(t, c.Unreach)
 	proc.Behave = func(n int, ctx context.Context) error {
 		if n > 0 || c.Kind != "fail" {
 			return nil
@@ -229,35 +431,26 @@ func drive(c Case, bullyWait time.Duration) attempt {
 		// ordered after the first attempt's own read of the field (start() evaluated it before this
 		// Run was spawned) and before handleError's reads (after this Run returned): no data race
 		co.CoordinatorTimeout = time.Duration(c.ctoMs()) * time.Millisecond
+		// from now on the culprits cannot be reached
+		cm.SetSendErr(dead)
+		bully.SetSendErr(dead)
 		if c.Variant == "abort" {
 			<-ctx.Done()
 		}
 		return injected
 	}
-	factory := elector.NewCoordinatorElectorFactoryWithComm(h, bully, relayer.BullyConfig{
-		PingWaitTime: time.Second, PingBackOff: time.Second, PingInterval: time.Second,
-		ElectionWaitTime: 5 * time.Millisecond, BullyWaitTime: bullyWait,
-	})
-	co = tss.NewCoordinator(h, cm, factory)
-	co.CoordinatorTimeout = time.Hour
 	co.TssTimeout = time.Duration(c.ttoMs()) * time.Millisecond
-	co.InitiatePeriod = time.Hour
 	if c.Kind == "silent" {
 		co.CoordinatorTimeout = time.Duration(c.ctoMs()) * time.Millisecond
+		cm.SetSendErr(dead)
+		bully.SetSendErr(dead)
 	}
 	genuine, _ := elector.NewCoordinatorElector(c.Sid).Coordinator(context.Background(), holders)
 	role1 := genuine == self // coordinator of the first attempt
 
 	ctx, cancel := context.WithCancel(context.Background())
 	defer cancel()
-	done := make(chan struct{})
-	res := make(chan interface{}, 8)
-	var ferr error
-	go func() {
-		defer close(done)
-		ferr = co.Execute(ctx, []tss.TssProcess{proc}, res)
-	}()
-	d := &fk.C07Driver{Comm: cm, Proc: proc, Sid: c.Sid, Done: done}
+	r.start(ctx)
 
 	// the bully's answers: an earlier candidate announces itself
 	if c.Winner != nil {
@@ -291,9 +484,18 @@ func drive(c Case, bullyWait time.Duration) attempt {
 			}
 		}
 	}
+	if c.Kind == "silent" && len(c.Msgs1) > 0 {
+		// traffic while the relayer waits for its silent coordinator; it ends with the wait
+		if sub := cm.WaitSub(c.Sid, comm.TssStartMsg, 1, done, fk.C07Deadline()); sub != nil {
+			r.timed(t, c.Msgs1, time.Now(), 1, 1, sub.Dead)
+		}
+	}
 	calls1 := len(proc.ReadyCalls())
 	ready1 := cm.CountSent(comm.TssReadyMsg)
 	init1 := cm.CountSent(comm.TssInitiateMsg)
+	if c.Kind == "silent" {
+		ready1 = 0 // every ready message of the session is listed
+	}
 
 	// ---- second attempt (if the implementation starts one): feed whichever loop appears
 	if nfirst == 1 || c.Kind == "silent" {
@@ -317,29 +519,9 @@ func drive(c Case, bullyWait time.Duration) attempt {
 				d.Deliver(comm.TssReadyMsg, readyOrd, t.ids[s], nil)
 			}
 		default:
-			began := time.Now() // the wait exists: arrival times count from here (never earlier than the real beginning)
-			for _, m := range c.Msgs2 {
-				from := t.ids[m.From]
-				if wait := time.Until(began.Add(time.Duration(m.At) * time.Millisecond)); m.At > 0 && wait > 0 {
-					select {
-					case <-time.After(wait):
-					case <-done: // the session ended by itself before the message's time
-					}
-				}
-				switch m.Type {
-				case "initiate":
-					d.Deliver(comm.TssInitiateMsg, startOrd, from, []byte{})
-				case "start":
-					payload := []byte("{not a start message")
-					if !m.Bad {
-						payload = fk.C07StartPayload(t.pick(m.Params))
-					}
-					d.Deliver(comm.TssStartMsg, startOrd, from, payload)
-				case "fail":
-					// handleError watches with the empty coordinator id (second fail subscription)
-					d.Deliver(comm.TssFailMsg, 2, from, []byte{})
-				}
-			}
+			// the wait exists: arrival times count from here (never earlier than the real beginning);
+			// handleError watches with the empty coordinator id (second fail subscription)
+			r.timed(t, c.Msgs2, time.Now(), startOrd, 2, nil)
 		}
 		if bully.AnySub() && !d.Stuck {
 			if !bully.WaitSent(comm.CoordinatorSelectMsg, 1, done, fk.C07Deadline()) {
@@ -355,60 +537,137 @@ func drive(c Case, bullyWait time.Duration) attempt {
 	if !d.WaitDone() {
 		o.Note += " Execute did not return"
 	}
-
-	for _, r := range proc.Runs() {
-		ps, ok := fk.C07DecodeParams(r.Params)
-		a := t.indices(ps)
-		if !ok {
-			a = []int{unknownPeer}
-		}
-		o.Runs = append(o.Runs, RunObs{Coord: r.Coordinator, Params: a})
-	}
-	for _, s := range bully.Sent() {
-		if s.Type == comm.CoordinatorSelectMsg && o.Elected == nil {
-			a := t.indices(s.To)
-			o.Elected = &a
-		}
-	}
-	for i, call := range proc.ReadyCalls() {
-		if i >= calls1 {
-			o.Calls2 = append(o.Calls2, CallObs{Ready: t.indices(call.Ready), Excluded: t.indices(call.Excluded)})
-		}
-	}
-	k := 0
-	for _, s := range cm.Sent() {
-		if s.Type == comm.TssReadyMsg {
-			if k >= ready1 {
-				p := unknownPeer
-				if len(s.To) == 1 {
-					p = t.index(s.To[0])
-				}
-				o.Ready2 = append(o.Ready2, p)
-			}
-			k++
-		}
-	}
-	var ce *tss.CoordinatorError
-	switch {
-	case ferr == nil:
-		o.Final = 0
-	case injected != nil && errors.Is(ferr, injected):
-		o.Final = 1
-	case c.Kind == "silent" && errors.As(ferr, &ce) && ce.Peer == genuine:
-		o.Final = 1
-	default:
-		o.Final = 2
-	}
-	if ferr != nil {
-		o.FinalText = fmt.Sprintf("%T: %v", ferr, ferr)
-		if len(o.FinalText) > 200 {
-			o.FinalText = o.FinalText[:200]
-		}
-	}
+	r.collect(t, &o, calls1, ready1, init1, func(ferr error) bool {
+		var ce *tss.CoordinatorError
+		return injected != nil && errors.Is(ferr, injected) ||
+			c.Kind == "silent" && errors.As(ferr, &ce) && ce.Peer == genuine
+	})
 	return attempt{obs: o, initN: cm.CountSent(comm.TssInitiateMsg) - init1}
 }
 
+// driveDuo runs the session's coordinator A (= Self) and another key holder B (= Other) as two real
+// Coordinators.  What A broadcasts to B is handed to B (one message at a time, event-driven); B's
+// genuine ready answer takes B's place in A's scripted ready stream.  B's process fails with
+// SubsetError when the announced subset leaves it out, as the real signing processes do.
+func driveDuo(c Case) Obs {
+	t := table(c)
+	a, b := t.ids[c.Self], t.ids[c.Other]
+	o := Obs{B: &Obs{}}
+	for _, p := range t.ids {
+		o.Keys = append(o.Keys, fk.C07SortKey(p, c.Sid))
+	}
+	o.B.Keys = o.Keys
+	ra := newRelayer(c, t, a, 30*time.Millisecond)
+	rb := newRelayer(c, t, b, 30*time.Millisecond)
+	rb.co.CoordinatorTimeout = time.Duration(c.ctoMs()) * time.Millisecond
+	rb.co.TssTimeout = time.Duration(c.ttoMs()) * time.Millisecond
+	ra.proc.Behave = func(n int, ctx context.Context) error {
+		<-ctx.Done()
+		return nil
+	}
+	leftOut := &tss.SubsetError{Peer: b}
+	rb.proc.Behave = func(n int, ctx context.Context) error {
+		if n > 0 {
+			return nil
+		}
+		ps, _ := fk.C07DecodeParams(rb.proc.Runs()[0].Params)
+		for _, p := range ps {
+			if p == b {
+				<-ctx.Done()
+				return nil
+			}
+		}
+		return leftOut
+	}
+	ctx, cancel := context.WithCancel(context.Background())
+	defer cancel()
+	ra.start(ctx)
+	rb.start(ctx)
+	has := func(ps []peer.ID, x peer.ID) bool {
+		for _, p := range ps {
+			if p == x {
+				return true
+			}
+		}
+		return false
+	}
+	first := func(r *node, ty comm.MessageType) *fk.ScriptSent {
+		for _, s := range r.cm.Sent() {
+			if s.Type == ty {
+				return &s
+			}
+		}
+		return nil
+	}
+	stuck := func(r *node) {
+		select {
+		case <-r.done:
+		default:
+			r.d.NoteStuck()
+		}
+	}
+
+	// A's initiate message, if it is addressed to B, and B's genuine answer
+	answered := false
+	if !ra.cm.WaitSent(comm.TssInitiateMsg, 1, ra.done, fk.C07Deadline()) {
+		stuck(ra)
+	} else if has(first(ra, comm.TssInitiateMsg).To, b) {
+		if rb.d.Deliver(comm.TssInitiateMsg, 1, a, []byte{}) {
+			if rb.cm.WaitSent(comm.TssReadyMsg, 1, rb.done, fk.C07Deadline()) {
+				answered = has(first(rb, comm.TssReadyMsg).To, a)
+			} else {
+				stuck(rb)
+			}
+		}
+	}
+	readyB := rb.cm.CountSent(comm.TssReadyMsg)
+	// A's ready stream
+	for _, s := range c.Ready1 {
+		if s == c.Other && !answered {
+			continue
+		}
+		ra.d.Deliver(comm.TssReadyMsg, 1, t.ids[s], nil)
+	}
+	// A announces the subset and runs; its start message, if it is addressed to B
+	told := false
+	if !ra.d.WaitRuns(1) {
+		o.Note = "the coordinator did not reach Run"
+	} else if st := first(ra, comm.TssStartMsg); st != nil && has(st.To, b) {
+		told = rb.d.Deliver(comm.TssStartMsg, 1, a, st.Payload)
+	}
+	if told && rb.d.WaitRuns(1) {
+		ps, _ := fk.C07DecodeParams(rb.proc.Runs()[0].Params)
+		if !has(ps, b) {
+			// left out: the relayer is expected to wait for a replacement attempt's start
+			sub := rb.cm.WaitAnySub(c.Sid, []fk.ScriptWant{{Type: comm.TssStartMsg, Ordinal: 2}}, rb.done, fk.C07Deadline())
+			if sub == nil {
+				stuck(rb)
+			} else {
+				rb.timed(t, c.Msgs2, time.Now(), 2, 2, nil)
+			}
+		}
+	} else if !ra.d.Stuck {
+		// B was not told about the attempt: watch what it does about its (healthy) coordinator for
+		// a little longer than its CoordinatorTimeout
+		rb.bully.WaitSent(comm.CoordinatorSelectMsg, 1, rb.done, time.Duration(c.ctoMs())*time.Millisecond+fk.C07Deadline()/4)
+	}
+	cancel()
+	if !ra.d.WaitDone() {
+		o.Note += " the coordinator's Execute did not return"
+	}
+	if !rb.d.WaitDone() {
+		o.Note += " the other relayer's Execute did not return"
+	}
+	never := func(error) bool { return false }
+	ra.collect(t, &o, len(ra.proc.ReadyCalls()), ra.cm.CountSent(comm.TssReadyMsg), ra.cm.CountSent(comm.TssInitiateMsg), never)
+	rb.collect(t, o.B, 0, readyB, 0, func(ferr error) bool { return errors.Is(ferr, leftOut) })
+	return o
+}
+
 func run(c Case) Obs {
+	if c.Kind == "duo" {
+		return driveDuo(c)
+	}
 	wait := 30 * time.Millisecond
 	if c.Winner != nil {
 		wait = 300 * time.Millisecond
@@ -611,6 +870,38 @@ func gen(r *vgen.Rng, tier string) []Case {
 		} else {
 			c.Msgs2 = append(c.Msgs2, Msg{Type: "start", From: starter, Params: sub})
 		}
+		// the culprits (and the peer of a communication failure, and sometimes a peer that holds no key)
+		// cannot be reached any more: every send to them fails.  Unreachable peers that are not culprits
+		// are not heard from either.
+		if r.Bool() {
+			silenced := map[int]bool{}
+			for p := range excluded {
+				c.Unreach = append(c.Unreach, p)
+			}
+			var walkComm func(Err)
+			walkComm = func(x Err) {
+				if x.K == "comm" {
+					c.Unreach = append(c.Unreach, x.Peer)
+					silenced[x.Peer] = true
+				}
+				for _, k := range x.Kids {
+					walkComm(k)
+				}
+			}
+			walkComm(e)
+			if m > nh && r.Bool() {
+				c.Unreach = append(c.Unreach, nh)
+				silenced[nh] = true
+			}
+			sort.Ints(c.Unreach)
+			var heard []int
+			for _, p := range c.Ready2 {
+				if !silenced[p] {
+					heard = append(heard, p)
+				}
+			}
+			c.Ready2 = heard
+		}
 		return c
 	}
 	for k := 0; k < reps; k++ {
@@ -657,6 +948,8 @@ func gen(r *vgen.Rng, tier string) []Case {
 					c.Msgs2 = []Msg{{Type: "initiate", From: x, At: 250}, {Type: "start", From: x, Params: sub, At: 500}}
 				case "two-initiators":
 					c.CTO, c.TTO = 40, 20000
+					// the first initiator cannot be reached: the ready answer to it fails, the wait goes on
+					c.Unreach = []int{x}
 					c.Msgs2 = []Msg{{Type: "initiate", From: x}, {Type: "initiate", From: y, At: 300}, {Type: "start", From: y, Params: sub, At: 600}}
 				case "past-tss":
 					c.TTO = 2000
@@ -668,14 +961,17 @@ func gen(r *vgen.Rng, tier string) []Case {
 				out = append(out, c)
 			}
 		}
-		// silent coordinator
-		for i := 0; i < 6; i++ {
+		// silent coordinator: alone; in the middle of traffic of other peers (forged initiate / start /
+		// fail messages every 60..90 ms, CoordinatorTimeout 300 ms << TssTimeout 3 s - the traffic goes on
+		// until the TSS timeout, the relayer must have classified the coordinator long before); after an
+		// initiate message of its own (which does re-arm the ticker)
+		for i := 0; i < 7; i++ {
 			nh := r.Range(3, 6)
 			m := nh + r.Intn(2)
 			peers, sid := genTable(r, m), vgen.Pick(r, sids)
 			holders := shuffled(r, seq(nh))
 			order := sortedByKey(peers, sid, holders)
-			proc := procs[i%len(procs)]
+			proc := procs[i%4]
 			if i == 5 {
 				proc = "ecdsa-keygen"
 			}
@@ -683,9 +979,95 @@ func gen(r *vgen.Rng, tier string) []Case {
 			if proc == "frost" {
 				sign = "frost"
 			}
-			out = append(out, Case{Kind: "silent", Peers: peers, Sid: sid, Holders: holders, T: r.Range(1, nh-2),
+			c := Case{Kind: "silent", Peers: peers, Sid: sid, Holders: holders, T: r.Range(1, nh-2),
 				Self: order[r.Range(1, nh-1)], Proc: proc, Sign: sign, Variant: "immediate",
-				Ready2: shuffled(r, append(seq(m), r.Intn(m)))})
+				Ready2: shuffled(r, append(seq(m), r.Intn(m)))}
+			if i%2 == 1 {
+				c.Unreach = []int{order[0]} // the dead coordinator
+			}
+			if i >= 2 {
+				c.CTO, c.TTO = 300, 3000
+				var forgers []int
+				for _, p := range seq(m) {
+					if p != order[0] && p != c.Self {
+						forgers = append(forgers, p)
+					}
+				}
+				forgers = shuffled(r, forgers)
+				f1, f2 := forgers[0], forgers[len(forgers)-1]
+				step := r.Range(60, 90)
+				at := step
+				if i == 4 {
+					// the coordinator's own initiate message first: the silence counts from there
+					// (arrival 100 ms << CoordinatorTimeout 600 ms here, the usual factor 6)
+					c.CTO = 600
+					c.Msgs1 = append(c.Msgs1, Msg{Type: "initiate", From: order[0], At: 100})
+					at = 100 + step
+				}
+				// i == 2: initiate messages only, i == 3: start messages only, otherwise alternating (no
+				// gap between two forged messages of one type comes near CoordinatorTimeout); from
+				// i == 5 on with fail messages in between
+				phase := r.Intn(2)
+				for n := 0; at < c.TTO; at, n = at+step, n+1 {
+					from := f1
+					if r.Chance(1, 3) {
+						from = f2
+					}
+					ty := "initiate"
+					if i == 3 || i > 3 && (n+phase)%2 == 1 {
+						ty = "start"
+					}
+					msg := Msg{Type: ty, From: from, At: at}
+					if ty == "start" {
+						msg.Params = shuffled(r, holders)[:c.T+1]
+						msg.Bad = r.Chance(1, 4)
+					}
+					c.Msgs1 = append(c.Msgs1, msg)
+					if i >= 5 && r.Chance(1, 3) {
+						c.Msgs1 = append(c.Msgs1, Msg{Type: "fail", From: from, At: at})
+					}
+				}
+			}
+			out = append(out, c)
+		}
+		// two real relayers: the coordinator and another key holder whose ready answer is lost / late
+		// (left out of the subset: it must be told, must not blame the coordinator, must join the
+		// replacement attempt) or in time (member of the subset)
+		for i := 0; i < 4; i++ {
+			nh := r.Range(4, 6)
+			m := nh + r.Intn(2)
+			peers, sid := genTable(r, m), vgen.Pick(r, sids)
+			holders := shuffled(r, seq(nh))
+			order := sortedByKey(peers, sid, holders)
+			t := r.Range(1, nh-2)
+			sign := vgen.Pick(r, []string{"ecdsa", "frost"})
+			c := Case{Kind: "duo", Peers: peers, Sid: sid, Holders: holders, T: t, Self: order[0],
+				Other: order[r.Range(1, nh-1)], Proc: sign, Sign: sign, Variant: "immediate"}
+			var rest []int
+			for _, h := range holders {
+				if h != c.Self && h != c.Other {
+					rest = append(rest, h)
+				}
+			}
+			rest = shuffled(r, rest)
+			if m > nh {
+				rest = append([]int{nh}, rest...) // a peer that holds no key answers too
+			}
+			switch i % 4 {
+			case 0: // the answer is lost
+				c.Ready1 = rest
+			case 1, 3: // the answer comes after the threshold was reached
+				c.Ready1 = append(append([]int{}, rest...), c.Other)
+			default: // in time
+				c.Ready1 = append([]int{c.Other}, rest...)
+			}
+			x := rest[len(rest)-1]
+			sub := append([]int{c.Other}, shuffled(r, rest[len(rest)-t:])...)
+			c.Msgs2 = []Msg{{Type: "initiate", From: x}, {Type: "start", From: x, Params: sub}}
+			if i == 3 {
+				c.Msgs2 = c.Msgs2[1:]
+			}
+			out = append(out, c)
 		}
 	}
 	return out
@@ -744,6 +1126,16 @@ func procKind(p string) string {
 	return "PResharing"
 }
 
+func coqObs(o Obs) string {
+	elected := "None"
+	if o.Elected != nil {
+		elected = vgen.Some(PL(*o.Elected))
+	}
+	return "(mkObs " + vgen.ListOf(o.Runs, func(r RunObs) string { return vgen.Pair(vgen.Bool(r.Coord), PL(r.Params)) }) + " " + elected + " " +
+		vgen.ListOf(o.Calls2, func(x CallObs) string { return vgen.Pair(PL(x.Ready), PL(x.Excluded)) }) + " " + PL(o.Ready2) + " " + vgen.N(uint64(o.Final)) + " " +
+		vgen.ListOf(o.Inits2, PL) + " " + vgen.ListOf(o.Starts, func(x StartObs) string { return vgen.Pair(PL(x.Params), PL(x.To)) }) + ")"
+}
+
 func coq(c Case, o Obs) string {
 	msg := func(m Msg) string {
 		switch m.Type {
@@ -764,16 +1156,18 @@ func coq(c Case, o Obs) string {
 	if c.Winner != nil {
 		winner = vgen.Some(P(*c.Winner))
 	}
-	elected := "None"
-	if o.Elected != nil {
-		elected = vgen.Some(PL(*o.Elected))
+	head := vgen.ListOf(o.Keys, vgen.N) + " " + tm + " " + fmt.Sprintf("%d%%nat", len(c.Peers)) + " " + PL(c.Holders) + " " + vgen.Z(int64(c.T)) + " " + P(c.Self)
+	if c.Kind == "duo" {
+		ob := Obs{}
+		if o.B != nil {
+			ob = *o.B
+		}
+		return "Duo " + head + " " + P(c.Other) + " " + PL(c.Ready1) + " " + vgen.ListOf(c.Msgs2, tmsg) + " " + coqObs(o) + " " + coqObs(ob)
 	}
-	obs := "(mkObs " + vgen.ListOf(o.Runs, func(r RunObs) string { return vgen.Pair(vgen.Bool(r.Coord), PL(r.Params)) }) + " " + elected + " " +
-		vgen.ListOf(o.Calls2, func(x CallObs) string { return vgen.Pair(PL(x.Ready), PL(x.Excluded)) }) + " " + PL(o.Ready2) + " " + vgen.N(uint64(o.Final)) + ")"
-	head := vgen.ListOf(o.Keys, vgen.N) + " " + tm + " " + PL(c.Holders) + " " + vgen.Z(int64(c.T)) + " " + P(c.Self) + " " + procKind(c.Proc) + " " + vgen.Bool(o.Retryable)
-	tail := winner + " " + PL(c.Ready2) + " " + vgen.ListOf(c.Msgs2, tmsg) + " " + obs
+	head += " " + procKind(c.Proc) + " " + vgen.Bool(o.Retryable)
+	tail := PL(c.Unreach) + " " + winner + " " + PL(c.Ready2) + " " + vgen.ListOf(c.Msgs2, tmsg) + " " + coqObs(o)
 	if c.Kind == "silent" {
-		return "Silent " + head + " " + tail
+		return "Silent " + head + " " + vgen.ListOf(c.Msgs1, tmsg) + " " + tail
 	}
 	return "Fail " + head + " " + PL(c.Ready1) + " " + PL(c.Start1) + " " + seen(c) + " " + tail
 }
@@ -788,8 +1182,19 @@ func rootKinds(e Err, acc map[string]bool) {
 }
 
 func kind(c Case) string {
+	unreach := ""
+	if len(c.Unreach) > 0 {
+		unreach = ":unreachable"
+	}
+	if c.Kind == "duo" {
+		return "duo"
+	}
 	if c.Kind == "silent" {
-		return "silent:" + procKind(c.Proc)
+		traffic := ""
+		if len(c.Msgs1) > 0 {
+			traffic = ":traffic"
+		}
+		return "silent:" + procKind(c.Proc) + traffic + unreach
 	}
 	acc := map[string]bool{}
 	rootKinds(*c.Err, acc)
@@ -812,7 +1217,7 @@ func kind(c Case) string {
 			}
 		}
 	}
-	return "fail:" + procKind(c.Proc) + ":" + s[1:] + ":" + c.Variant + timed
+	return "fail:" + procKind(c.Proc) + ":" + s[1:] + ":" + c.Variant + timed + unreach
 }
 
 func main() {
@@ -831,7 +1236,9 @@ func main() {
 			"x {alone, joined with a timeout error on either side, nested joins, %w-wrapped} x {coordinator, other} role of the first attempt x " +
 			"{ECDSA signing, FROST signing, ECDSA/FROST keygen, ECDSA/FROST resharing} x {Run fails at once, Run fails after the coordinator's fail message aborted the attempt}, " +
 			"with and without an earlier candidate winning the bully election; plus left-out relayers with CoordinatorTimeout 40 ms << arrival of the replacement attempt's initiate/start messages (250..600 ms) << TssTimeout 20 s " +
-			"and with arrival 6 s >> TssTimeout 2 s; plus silent-coordinator sessions (the implementation's own CoordinatorError); " +
+			"and with arrival 6 s >> TssTimeout 2 s; in half of the cases the culprits (and the peer of a communication failure) cannot be reached from the failure on (every Broadcast addressing them returns a CommunicationError); " +
+			"plus silent-coordinator sessions (the implementation's own CoordinatorError), alone and in the middle of forged initiate/start/fail traffic of other peers every 60..90 ms (CoordinatorTimeout 300 ms, TssTimeout 3 s), also after an initiate message of the coordinator itself (at 100 ms, CoordinatorTimeout 600 ms); " +
+			"plus two real relayers over one network (the coordinator and a key holder whose ready answer is lost / late / in time); " +
 			"distinct = distinct input JSON; non-trivial = the first attempt reached Run (or the coordinator stayed silent)",
 		ShardSize: 100,
 	})
